@@ -293,6 +293,13 @@ def confluent_wfsa(rng, q=4, sigma=2, extra=3):
     return A(frozenset(states), {s: next(it) for s in start}, {s: next(it) for s in stop}, [(a, y, b, next(it)) for a, y, b in arcs])
 
 
+def int_labels(a):
+    """Byte-level / token-id alphabet: the symbols become 0, 1, 2, ... (0 - the NUL byte - is falsy but is NOT epsilon)."""
+    syms = sorted({x for _, x, _, _ in a.arcs if x != EPS})
+    m = {x: k for k, x in enumerate(syms)}
+    return A(a.states, dict(a.start), dict(a.stop), [(i, m.get(x, x) if x != EPS else EPS, j, w) for i, x, j, w in a.arcs])
+
+
 def automaton_domain(seed, n_random, q=3, sigma=2, m=5, tag="rand"):
     rng = random.Random(seed)
     out = list(full_corpus().items())
